@@ -621,6 +621,55 @@ def grid_case(ctx, g, i, scratch):
 # ---------------------------------------------------------------------------------------------
 # (d) literal files
 # ---------------------------------------------------------------------------------------------
+class _StandInHelper(object):
+    """A connected upload helper: any contact with it is recorded and refused."""
+
+    def __init__(self):
+        self.contacts = []
+        self.version = {b"http://allmydata.org/tahoe/protocols/helper/v1": {}, b"application-version": b"stand-in"}
+
+    def callRemote(self, methname, *a, **kw):
+        from twisted.internet import defer
+        self.contacts.append(methname)
+        return defer.fail(RuntimeError("stand-in helper was asked to %s" % methname))
+
+    def notifyOnDisconnect(self, *a, **kw):
+        return None
+
+    def dontNotifyOnDisconnect(self, *a, **kw):
+        return None
+
+
+def literal_with_helper(ctx, g):
+    """A literal needs no servers and no helper: with an upload helper connected, files of 0..55 bytes
+    still become URI:LIT: caps embedding exactly the data, and the helper is not contacted."""
+    uploader = g.client(0).getServiceNamed("uploader")
+    for size in list(range(0, 57)):
+        for j in range(ctx.n(1, 3)):
+            r = ctx.rng("lit-helper", size, j)
+            data = rbytes(r, size)
+            secret = gen_secret(r) if j % 2 == 0 else None
+            kind = ("data", "filehandle")[(size + j) % 2]
+            case = {"part": "literal-helper", "size": size, "j": j, "data": data.hex(), "secret": secret.hex() if secret is not None else None, "source": kind}
+            if size > 55:
+                continue          # CHK files legitimately go to a connected helper (C44's subject)
+            helper = _StandInHelper()
+            old = uploader._helper
+            uploader._helper = helper
+            try:
+                out = g.run(lambda: g.upload_results(make_uploadable(kind, data, secret, [])), outcome=True)
+            finally:
+                uploader._helper = old
+            ctx.case(("lit-helper", data, secret, kind), kind="literal:helper-connected")
+            want = b"URI:LIT:" + o_b32(data)
+            cap = bytes(out.value.get_uri()) if out.status == "ok" else None
+            if helper.contacts or cap != want:
+                ctx.oracle_fail("literal-upload-goes-to-helper" if helper.contacts else "literal-cap-does-not-embed-data",
+                                "a %d-byte upload on a client whose upload helper is connected: %s; helper contacted with %r (a literal needs no servers and no helper; "
+                                "expected URI:LIT: + base32(data))" % (size, ("cap %r" % cap[:60]) if cap is not None else "%s %s" % (out.status, out.error), helper.contacts),
+                                case=case, expected=want.decode(), observed=cap.decode() if cap is not None else str(out.error))
+
+
 def literal_inputs(ctx, size, j):
     r = ctx.rng("lit", size, j)
     data = rbytes(r, size)
@@ -751,6 +800,7 @@ def run_grid(ctx, scratch):
         g.set_encoding(k=3, n=10, happy=HAPPY, max_segment_size=131072)
         for size, j in lit:
             caps[(size, j)] = literal_upload_on_servers(ctx, g, size, j, scratch)
+        literal_with_helper(ctx, g)
     with G.Grid(num_servers=0, k=3, n=10, happy=HAPPY, max_segment_size=131072, seed=ctx.seed) as g0:
         for size, j in lit:
             t, inf = literal_case(ctx, g0, caps[(size, j)], size, j)
@@ -848,6 +898,9 @@ def replay(ctx, record):
             cap = literal_upload_on_servers(ctx, g, c["size"], c["j"], scratch)
         with G.Grid(num_servers=0, k=3, n=10, happy=HAPPY, max_segment_size=131072, seed=ctx.seed) as g0:
             terms, info = literal_case(ctx, g0, cap, c["size"], c["j"])
+    elif part == "literal-helper":
+        with G.Grid(num_servers=10, k=3, n=10, happy=HAPPY, max_segment_size=131072, seed=ctx.seed) as g:
+            literal_with_helper(ctx, g)
     elif part == "random":
         random_keys(ctx)
     else:
